@@ -10,7 +10,7 @@ for d in _seed/[0-9]*; do
   PYTHONPATH=$WT /venv/bin/python $d/demo.py > /tmp/demo_clean.txt 2>&1; rc_clean=$?
   if ! git apply $d/patch.diff; then echo "$WT $k APPLY-FAILED"; continue; fi
   PYTHONPATH=$WT /venv/bin/python $d/demo.py > /tmp/demo_patched_$$.txt 2>&1; rc_patched=$?
-  suite=$(PYTHONPATH=$WT /venv/bin/python -m pytest -q -p no:cacheprovider --timeout=900 --continue-on-collection-errors 2>&1 | tail -1)
+  suite=$(PYTHONPATH=$WT /venv/bin/python -m pytest -q -n 4 -p no:cacheprovider --timeout=1800 --continue-on-collection-errors 2>&1 | tail -1)
   git checkout -q -- .
   echo "$WT $k demo_clean=$rc_clean demo_patched=$rc_patched suite: $suite"
 done
